@@ -182,13 +182,17 @@ prop("C11", [
     dict(engine="verus", unit="policy", fns=["check_policy", "check_policies", "apply_policy", "apply_policies",
          "ResponseOptions::set_raw_option", "ResponseOptions::set_option", "ResponseOptions::mutate_option",
          "ResponseOptions::mutate_option_default", "ResponseOptions::to_options"]),
+    # top-level defaults: the built-in base policy (R9 slices of build_default_config) and its application before the configured policies
+    dict(engine="verus", unit="dhcpdefaults"),
+    dict(engine="verus", unit="dhcphandlers", fns=["handle_discover", "handle_request"]),
 ], explanation="policy selection and override: the response state after apply_policies equals the recursive model taken from the property statement (first applicable sibling only, condition-less policy applies iff a sub-policy does, own options then children then subnet defaults, null = do-not-send, only options in the parameter request list); to_options sends exactly the entries carrying a value",
     assumptions=["parameter-request-list extraction (iterator chain .unwrap_or_default().iter().copied().map(DhcpOption::from).collect()) replaced by a stub with the obvious contract",
                  "generic get_option::<Vec<u8>> glue assumed (parse_into proved in unit dhcpgetters)",
                  "DhcpOptionTypeValue opaque: as_bytes() and Serialise::serialise() yield the same bytes (one-line impl `v.extend(self.as_bytes().iter())`)",
                  "Ipv4Subnet::contains/netmask/broadcast opaque here (proved by Kani set net_subnet)",
                  "DhcpOption obeys vstd's hash-table key model (derive(Hash, Eq) on a u8 newtype)",
-                 "build_default_config (top-level defaults: iterator chains) is NOT under contract; the order base-policy-then-configured-policies in handle_discover/handle_request is checked only as far as unit dhcphandlers goes"])
+                 "build_default_config: the three top-level options and the per-interface extras are R9 slices (unit dhcpdefaults); the sub-policy list construction (filter_map over `addresses`) around them is not under contract, its address pools are unit dhcpranges",
+                 "if_mtu above 65535 (only a loopback interface) is outside the contract of the MTU default (`mtu as u16` wraps)"])
 
 prop("C12", [
     dict(engine="kani", sets=["dhcp_flag", "net_packet"]),
